@@ -32,6 +32,8 @@ def deadline(v):
             ds.append("def" if n == 0 else n)
         elif k in DEADLINE:
             ds.append(DEADLINE[k])
+    if kv.intrinsic_defect(v) is not None:
+        ds.append("def")   # all-zero H_0 / unused declared symbol: also ill-posed, rejected at definition
     if not ds:
         return None
     return min(ds, key=stage_rank)
